@@ -1042,7 +1042,10 @@ class UKF:
         kalman_gain = cross_covariance @ np.linalg.inv(predicted_measurement_covariance)
 
         # 8. Compute the innovation (measurement residual)
-        acc_normalized = acc / np.linalg.norm(acc)
+        a_norm = np.linalg.norm(acc)
+        if not a_norm > 0:
+            raise ValueError("Accelerometer sample must be non-zero.")
+        acc_normalized = acc / a_norm
         innovation = acc_normalized - predicted_measurement_mean
 
         # 9.1. Update state estimation
